@@ -341,6 +341,15 @@ func c20Parse(args []string) ([]string, error) {
 	// blocked: the library did not finish within the deadline (the request ends as `timeout`, the process exits);
 	// violation: the library finished but the harness saw something the property forbids (reply `violation`)
 	blocked, violation := "", ""
+	// the parser goroutine's end is watched while consuming: a panic (channels never closed) is reported at
+	// once instead of after the deadline; a normal return is remembered
+	doneCh, parserDone := done, false
+	onDone := func(p interface{}) {
+		doneCh, parserDone = nil, true
+		if p != nil {
+			violation = fmt.Sprintf("parser goroutine panicked: %v", p)
+		}
+	}
 	if sequential {
 		// the documented usage: for e := range entries {...}; for err := range errors {...}
 	entLoop:
@@ -352,13 +361,17 @@ func c20Parse(args []string) ([]string, error) {
 					break entLoop
 				}
 				delivered = append(delivered, e)
+			case p := <-doneCh:
+				if onDone(p); violation != "" {
+					break entLoop
+				}
 			case <-deadline:
 				blocked = "entries channel not closed within the deadline"
 				break entLoop
 			}
 		}
 	errLoop:
-		for blocked == "" {
+		for blocked == "" && violation == "" {
 			pause()
 			select {
 			case _, ok := <-errs:
@@ -366,15 +379,19 @@ func c20Parse(args []string) ([]string, error) {
 					break errLoop
 				}
 				nErr++
+			case p := <-doneCh:
+				onDone(p)
 			case <-deadline:
 				blocked = "error channel not closed within the deadline (entries channel closed)"
 			}
 		}
 	} else {
 		ec, rc := entries, errs
-		for blocked == "" && (ec != nil || rc != nil) {
+		for blocked == "" && violation == "" && (ec != nil || rc != nil) {
 			pause()
 			select {
+			case p := <-doneCh:
+				onDone(p)
 			case e, ok := <-ec:
 				if !ok {
 					ec = nil
@@ -392,7 +409,7 @@ func c20Parse(args []string) ([]string, error) {
 			}
 		}
 	}
-	if blocked == "" {
+	if blocked == "" && violation == "" {
 		// closed means closed: further receives return !ok at once
 		for i := 0; i < 2 && violation == ""; i++ {
 			select {
@@ -413,22 +430,15 @@ func c20Parse(args []string) ([]string, error) {
 			}
 		}
 		// the parser goroutine has returned without panic (no send on, no second close of, a closed channel)
-		select {
-		case p := <-done:
-			if p != nil {
-				violation = fmt.Sprintf("parser goroutine panicked after closing: %v", p)
+		if !parserDone {
+			select {
+			case p := <-done:
+				if p != nil {
+					violation = fmt.Sprintf("parser goroutine panicked after closing: %v", p)
+				}
+			case <-time.After(5 * time.Second):
+				blocked = "parser goroutine did not return after both channels were closed"
 			}
-		case <-time.After(5 * time.Second):
-			blocked = "parser goroutine did not return after both channels were closed"
-		}
-	} else {
-		// not closed: because the parser goroutine died?
-		select {
-		case p := <-done:
-			if p != nil {
-				blocked, violation = "", fmt.Sprintf("parser goroutine panicked, channels never closed: %v", p)
-			}
-		default:
 		}
 	}
 	if blocked == "" && violation == "" && startSecond != nil {
